@@ -230,6 +230,8 @@ def parent_main(pid: str, tier: str) -> int:
     parts = modmeta.get("parts", ["main"])
     nshards = int(os.environ.get(
         "VERIF_SHARDS", modmeta["shards"][0 if tier == "quick" else 1]))
+    max_wall = float(os.environ.get(
+        "VERIF_MAX_WALL_S", 2400 if tier == "quick" else 4 * 3600))
     tmp = tempfile.mkdtemp(prefix=f"vf_{pid}_")
     viol_dir = os.path.join(VERIF_DIR, "out", "violations", pid)
     shutil.rmtree(viol_dir, ignore_errors=True)
@@ -267,6 +269,16 @@ def parent_main(pid: str, tier: str) -> int:
                 while queue and len(running) < NCPU:
                     running.append(start(*queue.pop(0)))
                 time.sleep(0.05)
+                if time.monotonic() - t0 > max_wall:
+                    # overall watchdog: a worker that never returns (e.g. a
+                    # changed tree that loops forever) must not hang the
+                    # check. Inconclusive = harness exit code, no verdict.
+                    for job in running:
+                        job[0].kill()
+                    stuck = ", ".join(f"{j[1]}/{j[2]}" for j in running)
+                    print(f"HARNESS-ERROR: inconclusive - workers {stuck} "
+                          f"still running after {max_wall:.0f}s wall; killed")
+                    return 2
                 still = []
                 for job in running:
                     p, part, shard, out, log, fh = job
